@@ -658,17 +658,21 @@ func (d *simpleDecDriver[T]) nextValueBytesBdReadR() {
 		}
 
 		if bArray {
+			d.d.depthIncr() // skipped containers count towards MaxDepth like decoded ones
 			for i := uint(0); i < length; i++ {
 				d.readNextBd()
 				d.nextValueBytesBdReadR()
 			}
+			d.d.depthDecr()
 		} else if bMap {
+			d.d.depthIncr()
 			for i := uint(0); i < length; i++ {
 				d.readNextBd()
 				d.nextValueBytesBdReadR()
 				d.readNextBd()
 				d.nextValueBytesBdReadR()
 			}
+			d.d.depthDecr()
 		} else {
 			d.r.skip(length)
 		}
